@@ -22,6 +22,7 @@ RES = [0.5, 1.0, 2.0, 3.7]
 MARGINS = [0, 0.05, 0.25, 1]
 RING_CAP = 700                  # cells; above it the 'outer-ring' label is not computed (cost only)
 
+HANG_IS_VIOLATION = False      # cost depends on generated grid / file sizes: a CPU budget hit is inconclusive here
 ASSUMPTIONS = [
     "grid geometry (xmin, ymin, dX, dY, csize, lsize) is read from the index's public fields; the check "
     "demands separately that this extent contains every indexed vertex",
